@@ -20,7 +20,9 @@
    state `run q ops` reached by any QoS q and any operation history ops — and for all
    max_samples, masks and instance arguments.  The last theorems are invariants of
    `run q ops` proved by induction over the history. *)
-From DustDDS Require Import Base.Machine Cache.ReaderModel Cache.ReaderFacts Cache.ReaderCorr Cache.C20Proofs.
+From Coq Require Import Sorting.Sorted.
+From DustDDS Require Import Base.Machine Cache.ReaderModel Cache.ReaderFacts Cache.ReaderCorr Cache.C20Proofs
+  Cache.C20GenProofs.
 Open Scope Z_scope.
 
 (* ---- which samples match ---------------------------------------------------------- *)
@@ -97,6 +99,14 @@ Theorem C20_read_marks_only :
       r_samples (fst (collect r max m hsel false)) = map (mark_sel r m hsel) l1 ++ l2.
 Proof. exact read_marks_only. Qed.
 
+(* pointwise: read neither adds nor drops nor reorders; each sample is untouched, or it is a selected
+   sample whose sample_state became READ *)
+Theorem C20_read_changes_only_sample_state :
+  forall r max m hsel,
+    Forall2 (fun s s' => s' = s \/ (s' = mark_read s /\ sel r m hsel s = true))
+            (r_samples r) (r_samples (fst (collect r max m hsel false))).
+Proof. exact read_changes_only_sample_state. Qed.
+
 (* ---- (c) take removes exactly the returned samples, the rest keeps its order ---------- *)
 Theorem C20_take_removes_only :
   forall r max m hsel,
@@ -106,6 +116,15 @@ Theorem C20_take_removes_only :
       filter (sel r m hsel) l1 = firstn_z max (filter (sel r m hsel) (r_samples r)) /\
       r_samples (fst (collect r max m hsel true)) = filter (unsel r m hsel) l1 ++ l2.
 Proof. exact take_removes_only. Qed.
+
+(* pointwise: take only drops selected samples (keep flag false), alters none, keeps the order *)
+Theorem C20_take_only_drops :
+  forall r max m hsel,
+    exists keep : list bool,
+      length keep = length (r_samples r) /\
+      r_samples (fst (collect r max m hsel true)) = map fst (filter snd (combine (r_samples r) keep)) /\
+      Forall (fun sk => snd sk = false -> sel r m hsel (fst sk) = true) (combine (r_samples r) keep).
+Proof. exact take_only_drops. Qed.
 
 (* nothing else changes; exactly the instances named in the collection become NOT_NEW *)
 Theorem C20_collect_frame :
@@ -164,6 +183,40 @@ Theorem C20_mrsic_exists :
   forall (l : list info) x, In x l ->
     exists a y b, l = a ++ y :: b /\ f_inst y = f_inst x /\ forall z, In z b -> f_inst z <> f_inst x.
 Proof. exact mrsic_exists. Qed.
+
+(* ---- ranks over histories ----------------------------------------------------------------- *)
+(* invariant of every reachable state (all QoS, all histories): a stored sample never has a
+   higher generation than its instance record, and with BY_RECEPTION_TIMESTAMP order the
+   generations of the samples of one instance are non-decreasing along the cache *)
+Theorem C20_generation_invariant :
+  forall q ops,
+    (forall s, In s (r_samples (run q ops)) ->
+       exists i, find_inst (s_inst s) (r_insts (run q ops)) = Some i /\
+                 s_dgc s + s_nwgc s <= i_dgc i + i_nwgc i) /\
+    (q_bysrc (r_qos (run q ops)) = false ->
+     StronglySorted (fun a b => s_inst a = s_inst b -> s_dgc a + s_nwgc a <= s_dgc b + s_nwgc b)
+                    (r_samples (run q ops))).
+Proof. exact reachable_gen_inv. Qed.
+
+(* hence, for every BY_RECEPTION_TIMESTAMP reader, after every history, in every collection:
+   0 <= sample_rank, 0 <= generation_rank <= absolute_generation_rank *)
+Theorem C20_ranks_bounds_by_reception :
+  forall q ops max m hsel take r' l,
+    q_bysrc q = false ->
+    collect (run q ops) max m hsel take = (r', CollOk l) ->
+    Forall (fun x => 0 <= f_srank x /\ 0 <= f_grank x /\ f_grank x <= f_agrank x) l.
+Proof. exact ranks_bounds_by_reception. Qed.
+
+(* OBSERVATION (not a recorded class; the definitions are still met): with BY_SOURCE_TIMESTAMP the
+   most recent sample of the collection (latest source timestamp) can have been received in an
+   earlier generation than a sample sorted before it; generation_rank is then negative *)
+Theorem C20_grank_negative_by_source_witness :
+  exists l, snd (collect (run (mkQ true None None None None false (Some 0))
+                              [OpAdd 1 1 KAlive (Some 10) 100 10; OpAdd 1 1 KDisposed (Some 20) 101 20;
+                               OpAdd 1 1 KAlive (Some 5) 102 30])
+                         (-1) (mkM true true true true true true true) None false) = CollOk l /\
+            map f_data l = [102; 100; 101] /\ map f_grank l = [-1; 0; 0].
+Proof. exact grank_negative_by_source_witness. Qed.
 
 (* ---- "grouped by instance" -------------------------------------------------------------- *)
 (* The collection is in STORAGE order.  It is grouped by instance (ReaderCorr.grouped: the
@@ -246,6 +299,8 @@ Print Assumptions C20_sample_info_fields.
 Print Assumptions C20_collection_data.
 Print Assumptions C20_read_marks_only.
 Print Assumptions C20_take_removes_only.
+Print Assumptions C20_read_changes_only_sample_state.
+Print Assumptions C20_take_only_drops.
 Print Assumptions C20_collect_frame.
 Print Assumptions C20_nodata_iff_empty.
 Print Assumptions C20_bad_parameter_iff.
@@ -253,6 +308,9 @@ Print Assumptions C20_no_other_error.
 Print Assumptions C20_no_effect_without_data.
 Print Assumptions C20_ranks_match_dds.
 Print Assumptions C20_mrsic_exists.
+Print Assumptions C20_generation_invariant.
+Print Assumptions C20_ranks_bounds_by_reception.
+Print Assumptions C20_grank_negative_by_source_witness.
 Print Assumptions C20_grouped_iff_collected.
 Print Assumptions C20_grouped_when_contiguous.
 Print Assumptions C20_grouped_one_instance.
